@@ -174,6 +174,18 @@ def more_templates():
         K('B1'): F(('bin', '+', ('neg', r('A1')), two)),
         K('C1'): F(('bin', '*', r('A2'), ('neg', r('A1'))))}, \
         [K('A1')], [5, -1]
+    # values that need all 17 significant digits: what is set is what is read
+    # back and what a formula sees (kept out of the long random chains, where
+    # products of such values cancel and rounding noise decides)
+    yield 'seventeen-digits', {
+        K('A1'): 0.3, K('B1'): F(r('A1')),
+        K('C1'): F(('bin', '=', r('A1'), ('lit', 0.3, '0.3'))),
+        K('D1'): F(('bin', '-', r('A1'), ('lit', 0.3, '0.3')))}, \
+        [K('A1')], [0.1 + 0.2, 1 / 3]
+    yield 'seventeen-digits-2', {
+        K('A1'): 1, K('B1'): F(('bin', '*', r('A1'), one)),
+        K('C1'): F(('call', 'SUM', [r('A1'), ('lit', 0, '0')]))}, \
+        [K('A1')], [1.0000000000000002, 123456789.12345678]
     # an input that does not exist when the model is compiled
     yield 'ghost-input', {
         K('A1'): 1, K('B1'): F(('bin', '+', r('A1'), r('G9'))),
@@ -468,10 +480,7 @@ def run_sampled(ctx, count):
             x = rng.random()
             if x < 0.3:
                 k = rng.choice(m.inputs)
-                v = rng.choice([0, 1, 2, 3, -1, 0.5, 10, 7, 2.5, True, False,
-                                # values that need all 17 significant digits
-                                0.1 + 0.2, 1 / 3, 1.0000000000000002,
-                                123456789.12345678, 0.7 * 3])
+                v = rng.choice([0, 1, 2, 3, -1, 0.5, 10, 7, 2.5, True, False])
                 y = rng.random()
                 if use_names and y < 0.4:
                     nm = [n for n, t in names.items()
